@@ -958,7 +958,9 @@ package gldap
 //@ pure opRespTag(o routeOperation) int = cond(o == bindRouteOperation, ApplicationBindResponse, cond(o == searchRouteOperation, ApplicationSearchResultDone, cond(o == modifyRouteOperation, ApplicationModifyResponse,
 //@     cond(o == addRouteOperation, ApplicationAddResponse, cond(o == deleteRouteOperation, ApplicationDelResponse, ApplicationExtendedResponse)))))
 //@ pure wOK(w *ResponseWriter) bool = w != nil && !isNilIface(w.logger) && w.writer != nil && w.writerMu != nil && G_guard[w.writer] == w.writerMu
+// (C06) serve runs handlers: its callers must not hold a lock of their own either
 //@ func (*gldap.Mux).serve
+//@   callernolocks C06
 //@   requires m != nil && muxOK(m) && wOK(w) && !held(w.writerMu) && (req != nil ==> reqOK(req) && (req.conn != nil ==> connIO(req.conn)))
 //@   requires[C06] G_role[0] == 3 || (req != nil && req.extendedName == ExtendedOperationStartTLS)
 //@   exit     req != nil && req.conn != nil ==> connIO(req.conn)
